@@ -5,7 +5,8 @@ import FpgoVerif.Model.C03Defs
       ty      i | s | t            element type int / string / struct{A int; B string}
       element int `3`, `-1`; string `~ab` (`~` = ""); struct `2~b` (zero `0~`)
       slice   nil | [e,e,e] | [e,e|h,h]  (after `|`: hidden elements between len and cap)
-      map     nil | {k:v,k:v}      (keys: elements, values: ints)
+              | [e,e,e,e]#a:b      (view backing[a:b]; equal backing texts in one case share storage)
+      map     nil | {k:v,k:v}      (keys: elements, values: ints) | {k:v}#s (same text = same map object)
       fn      f<k> (member k of the function family of that helper) | fnil
     Elements are handled here as their tokens (token equality = Go equality); the function families
     act on `ord tok`, the same integer code the harness computes from the Go value.
@@ -87,18 +88,33 @@ def inner (tok : String) : String := ((tok.drop 1).toString.dropEnd 1).toString
 
 def csv (s : String) : List String := (s.splitOn ",").filter (· ≠ "")
 
+/-- `[e,e,e,e]#a:b` is the view `backing[a:b]` of a backing array that every operand of the case with the
+    same backing text SHARES (aliased arguments); for the value-based model it is just that sub-list with
+    the rest of the array as hidden capacity -/
 def pSl (tok : String) : Sl String :=
   if tok = "nil" then ⟨[], []⟩
-  else match (inner tok).splitOn "|" with
-    | [v] => ⟨csv v, []⟩
-    | [v, h] => ⟨csv v, csv h⟩
-    | _ => ⟨[], []⟩
+  else match tok.splitOn "#" with
+    | [bk, rng] =>
+      let all := csv (inner bk)
+      match rng.splitOn ":" with
+      | [a, b] =>
+        let a := (a.toNat?).getD 0
+        let b := (b.toNat?).getD 0
+        ⟨(all.take b).drop a, all.drop b⟩
+      | _ => ⟨[], []⟩
+    | _ =>
+      match (inner tok).splitOn "|" with
+      | [v] => ⟨csv v, []⟩
+      | [v, h] => ⟨csv v, csv h⟩
+      | _ => ⟨[], []⟩
 
 def pList (tok : String) : List String := (pSl tok).vis
 
 def pOptList (tok : String) : Option (List String) := if tok = "nil" then none else some (pList tok)
 
+/-- `{k:v,…}#s`: operands with the same text are the very same Go map object; same value here -/
 def pMap (tok : String) : List (String × String) :=
+  let tok := if tok.endsWith "#s" then (tok.dropEnd 2).toString else tok
   if tok = "nil" then []
   else (csv (inner tok)).filterMap (fun kv => match kv.splitOn ":" with | [k, v] => some (k, v) | _ => none)
 
